@@ -52,7 +52,8 @@ type RedisScenario struct {
 	Conns    []ConnScript   `json:"conns"`
 	Faults   []Fault        `json:"faults,omitempty"`
 	HorizonS int            `json:"horizon_s,omitempty"`
-	EndStop  bool           `json:"end_stop,omitempty"` // end the history with Stop (C20)
+	EndStop  bool           `json:"end_stop,omitempty"`  // end the history with Stop (C20)
+	EndClose bool           `json:"end_close,omitempty"` // end the history with every client closing its connection
 	// Down: nodes that refuse ("refuse") or black-hole ("blackhole") connections from the start
 	Down map[string]string `json:"down,omitempty"`
 	// Probes are connections started once all faults have fired, the proxy is quiescent and SettleMs
@@ -95,6 +96,7 @@ type redisWorld struct {
 	crashSteps []int64
 	crashTimes []time.Time
 
+	endPhase         int
 	probeRound       int
 	probeStart       time.Time
 	probeStartStep   []int64
@@ -593,6 +595,20 @@ func (w *redisWorld) Done() bool {
 		}
 	}
 	// faults that can no longer fire inside an operation are dropped: a fault while idle tests nothing
+	if (w.sc.EndClose || w.sc.EndStop) && w.endPhase == 0 {
+		// the history ends in quiescence: every client closes (or the service is stopped); all the
+		// conditions above must then hold once more before the run is over
+		w.endPhase = 1
+		if w.sc.EndStop {
+			w.stopRequested = true
+			w.env.Stop()
+		} else {
+			for _, c := range w.env.Clients {
+				c.Close()
+			}
+		}
+		return false
+	}
 	return true
 }
 
